@@ -8,6 +8,7 @@ from __future__ import annotations
 import csv
 import datetime
 import io
+import struct
 import os
 import re
 
@@ -30,6 +31,7 @@ ASSUMPTIONS = [
     "prepended bytes do not themselves contain a complete DOS header whose e_lfanew (>= 64) leads to a Machine word with the matching SizeOfOptionalHeader (random bytes do so with probability ~2^-47 per offset)",
     "sections follow the fixed-size optional header (SizeOfOptionalHeader 224/240), as in every beacon stage",
     "an export timestamp of 0 counts as 'not present'",
+    "the DOS area of the image holds no second header window for the same PE header (a dword e_lfanew - k, >= 64, at offset 60 + k): such images have two equally valid readings and are skipped",
 ]
 REQUIRED_MONITORS = ["pe.artifacts", "pe.via_config", "version.precedence", "version.parse", "tables.monotone", "tables.docs_csv"]
 
@@ -52,7 +54,13 @@ def check_case(case, ctx):
         par = case["params"]
         img, info = P.build_pe(_rng(case["seed"]), **{k: par[k] for k in ("arch", "lfanew", "magic_mz", "magic_pe", "compile_stamp",
                                                                             "export_stamp", "nsec", "export_section", "data", "vsize_mode", "export_at_start")},
-                                dos_mode=par.get("dos_mode", "random"))
+                                dos_mode=par.get("dos_mode", "random"), dos_stub_start=par.get("dos_stub_start", b""))
+        lf = par["lfanew"]
+        if any(struct.unpack_from("<I", img, k + 60)[0] == lf - k and lf - k >= 64 for k in range(1, lf - 63)):
+            # the DOS area itself holds a second complete header window for the same PE header (a dword e_lfanew - k at
+            # offset 60 + k): two equally valid readings of the same bytes, nothing to judge
+            ctx.ok(fp=("ambiguous", case["seed"]), nontrivial=False, case={"op": "image", "ambiguous": True}, classes=("image:ambiguous-dos-area",))
+            return
         prepend, append = par["prepend"], par["append"]
         stage = prepend + img + append + par["nulpad"]
         if par["xorenc"]:
@@ -241,6 +249,8 @@ def gen_image(rng, version):
     return {
         "arch": arch, "lfanew": rng.choice([64, 0x80, 0xF8, 1000, rng.randrange(64, 1001), rng.randrange(64, 260), rng.choice([172, 176, 183, 198, 0xE8])]),
         "magic_mz": magic_mz, "magic_pe": magic_pe, "dos_mode": rng.choice(["random", "genuine"]),
+        # DOS stub bytes that continue e_lfanew = e8 00 00 00 into the other architecture's bootstrap pattern (e8 00 00 00 00 5b)
+        "dos_stub_start": rng.choice([b"", b"", b"\x00\x5b", b"\x00\x5b\x89\xdf", b"\x55\x48\x89\xe5\x48\x81"]),
         "compile_stamp": rng.choice([1, 2**32 - 1, rng.randrange(1, 2**32), (rng.randrange(1, 2**16) << 16) | rng.choice([0x8664, 0x014C])]),
         "export_stamp": rng.choice([rng.choice(stamps), rng.choice(stamps), rng.choice(stamps) + rng.choice([-1, 1]), 1, 2**32 - 1, rng.randrange(1, 2**32)]),
         "nsec": nsec, "export_section": rng.choice([None, 0, 1, nsec - 1, rng.randrange(0, nsec)]), "data": data,
